@@ -30,19 +30,23 @@ PROPS = {
                  "(fromStr_eq_some_iff) and rejection of every malformed neighbour shape; model tied to the Go code by bit-exact differential run.",
  },
  "C13": {
-  "modules": ["OsmoVerif.Props.C13", "OsmoVerif.Props.C13SigFig", "OsmoVerif.Props.C13Log", "OsmoVerif.Props.C13Exp2"],
-  "min_theorems": 76,
+  "modules": ["OsmoVerif.Props.C13", "OsmoVerif.Props.C13SigFig", "OsmoVerif.Props.C13Log", "OsmoVerif.Props.C13Exp2",
+              "OsmoVerif.Props.C13Pow"],
+  "min_theorems": 92,
   "fingerprints": ["Osmomath.MonotonicSqrt*", "Osmomath.SigFigRound", "Osmomath.Exp2", "Osmomath.exp2ChebyshevRationalApprox",
                    "Osmomath.BigDec_LogBase2", "Osmomath.Pow", "Osmomath.PowApprox", "Osmomath.AbsDifferenceWithSign",
                    "Osmomath.BinarySearch*", "Osmomath.ErrTolerance_*"],
   "engines": [{"name": "math", "kind": "pure", "n": {"quick": 12000, "thorough": 150000}, "shards": {"quick": 4, "thorough": 16}}],
   "rule": "edge values (0, 1 ulp, 1, 2, 2-ulp, 512, 512+ulp, powers of two +-1 ulp, perfect squares +-1, sig-fig ties) and "
           "log-uniform random points per function; non-trivial = positive argument; distinct = distinct op lines",
-  "trusted_base": ["700-bit big.Float reference series (harness/cmd/pure/bigfloat.go) for the one analytic bound that remains unproved (Pow/PowApprox precision) and as an "
+  "trusted_base": ["700-bit big.Float reference series (harness/cmd/pure/bigfloat.go) for the one analytic bound that remains partly unproved (Pow/PowApprox precision outside [0.5,1.99]) and as an "
                    "independent cross-check of the proved ones on the sampled points",
                    "cosmossdk.io/math LegacyDec.Power/ApproxSqrt (modelled)",
                    "Mathlib real analysis (Real.logb, Real.log, Real.rpow, Real.exp with its explicit Taylor remainder) as the meaning of the true values in Props/C13Log and Props/C13Exp2"],
-  "assumptions": ["PARTIAL: NOT a theorem: the Pow/PowApprox power precision (findings F9, F10 show it is false in part); decided by the engine's oracle against 700-bit references "
+  "assumptions": ["PARTIAL: the Pow/PowApprox power precision is a theorem only on the middle of the domain (Props/C13Pow): bases in [0.5,1.5] (any exponent up to 1e8) and [1,1.99] "
+                  "(exponents up to 100): Pow returns and |Pow(b,e)-b^e| <= max(1,b)^floor(e)*1e-8 (absolute 1e-8 for b <= 1; relative above 1, the absolute claim is refuted by a witness); "
+                  "PowApprox within 1e-8*q/(1-q) for any |b-1| <= q < 1. It is FALSE below b ~ 0.4737 (F9; machine-checked witnesses at 0.4718/0.4631) and Pow panics near 2 "
+                  "(F10; Pow(1.999999999999999999, 0.02) = none proved analytically); on (0.4737,0.5) and (1.99,2) it is decided by the engine's oracle against 700-bit references "
                   "on the sampled points only",
                   "FALSE as literally stated (witness theorems, tolerated by the oracle): TickLog is not within 1e-32*6932 absolutely - the coded constant tickLogOf2 has 33 significant "
                   "digits, so the result has a relative error 2e-33 (9.2e-28 at x = 2^64); Exp2 is not monotone in the last digits (adjacent inputs around 0.5 decrease by one ulp; "
@@ -174,7 +178,7 @@ PROPS = {
  },
  "C08": {
   "modules": ["OsmoVerif.Props.C08", "OsmoVerif.Props.C08Inc", "OsmoVerif.Props.C08IncHist"],
-  "min_theorems": 90,
+  "min_theorems": 92,
   "fingerprints": ["CL.Keeper_*", "CL.SwapState_*"],
   "engines": [{"name": "clmath", "kind": "pure", "n": {"quick": 30000, "thorough": 400000}, "shards": {"quick": 2, "thorough": 16}},
               {"name": "cl", "kind": "app", "n": {"quick": 1500, "thorough": 20000}, "shards": {"quick": 4, "thorough": 16}, "env": NO_EXPORT_IMPORT}],
@@ -475,8 +479,8 @@ PROPS = {
  },
  "C04": {
   "modules": ["OsmoVerif.Props.C04", "OsmoVerif.Props.TieGenGammMath", "OsmoVerif.Props.C02C04", "OsmoVerif.Props.C04Real",
-              "OsmoVerif.Props.C04Seq", "OsmoVerif.Props.C04Stable"],
-  "min_theorems": 170,
+              "OsmoVerif.Props.C04Seq", "OsmoVerif.Props.C04Stable", "OsmoVerif.Props.C04Mid"],
+  "min_theorems": 186,
   "fingerprints": ["GammMath.*", "Osmomath.Pow", "Osmomath.PowApprox", "Osmomath.AbsDifferenceWithSign", "Osmomath.BinarySearch*", "Osmomath.ErrTolerance_*"],
   "engines": [{"name": "gammmath", "kind": "pure", "n": {"quick": 6000, "thorough": 150000}, "shards": {"quick": 4, "thorough": 16}}],
   "rule": "in-memory balancer and stableswap pools (2-8 assets; reserves 1..10^30 balanced / strongly unbalanced / tiny; user weights 1..2^20-1, "
@@ -491,7 +495,9 @@ PROPS = {
                    "sdk.Coins invariants (sorted, unique, positive) of every coins argument and pool assets sorted by denom (the constructors' invariants) are preconditions of the model"],
   "assumptions": ["PARTIAL: the real-valued clauses (stableswap invariant non-decreasing on the integer post-swap reserves; weighted product of reserves per share and "
                   "swap/join/exit results within the documented power precision |Pow(b,e)-b^e| <= 1e-8(1+b^e) (+1e-10(1+b^e) for the Dec roundings); no profitable "
-                  "sequence at the pool's INITIAL spot prices) are NOT theorems: decided by the engine's oracle (exact rationals / 700-bit floats) on the explored inputs",
+                  "sequence at the pool's INITIAL spot prices) are NOT theorems in general: decided by the engine's oracle (exact rationals / 700-bit floats) on the explored inputs; "
+                  "for balancer swap / single-asset join / exit whose trade size keeps the Pow base in [0.5,1.99] (token in <= in-reserve, 199*out <= 99*out-reserve, ...: MaxInRatio-style "
+                  "conditions this tree does not enforce) the comparison with the exact formulas and the weighted-product bounds ARE theorems (Props/C04Mid, via Props/C13Pow)",
                   "proved for all inputs: proportional join and exit bounds, solver post-condition (RoundUp side, 1e-12, non-empty bounds, output below reserve), "
                   "final Int roundings given the Pow value, exactness and place of the spread factor, domain guards",
                   "this tree declares no MaxInRatio/MaxOutRatio (translator fact Gen.GammMath.MaxRatioGuardDeclared = false): Pow bases below 0.5 are reachable through balancer"],
@@ -500,7 +506,7 @@ PROPS = {
  },
  "C11": {
   "modules": ["OsmoVerif.Props.C11", "OsmoVerif.Props.C11Refresh", "OsmoVerif.Props.TieGenSuperfluid"],
-  "min_theorems": 90,
+  "min_theorems": 92,
   "fingerprints": [],
   "engines": [{"name": "superfluid", "kind": "app", "n": {"quick": 20000, "thorough": 200000}, "shards": {"quick": 4, "thorough": 16}, "env": NO_EXPORT_IMPORT}],
   "rule": "history 0 of every shard is the scripted witness of the recorded findings; then histories of five classes (random 25%, dust 20%, slash 25%, "
